@@ -424,6 +424,19 @@ func (e *End) Send(b []byte) {
 	s.J.AddData(s, "send", e, cp)
 }
 
+// ShutWrite half-closes an owned end: the peer reads EOF after the in-flight data, this end
+// keeps receiving (shutdown(SHUT_WR)).
+func (e *End) ShutWrite() {
+	if e.Closed || e.Peer.finPending {
+		return
+	}
+	e.Peer.finPending = true
+	if !e.Auto {
+		e.s.J.Add(e.s, "shut-write", "%s", e.Name)
+	}
+	e.s.Count("fault.conn.half_close")
+}
+
 // Shut closes an owned end gracefully (FIN after in-flight data).
 func (e *End) Shut() {
 	if e.Closed {
